@@ -715,7 +715,8 @@ impl Check {
                 let slots = &slots;
                 let remaining = std::sync::atomic::AtomicUsize::new(sec.shards);
                 let remaining = &remaining;
-                let (it, stop, fail_count) = (&it, &stop, &fail_count);
+                let handed = AtomicU64::new(0);
+                let (it, stop, fail_count, handed) = (&it, &stop, &fail_count, &handed);
                 std::thread::scope(|sc| {
                     sc.spawn(move || watch_cases(this, secr.name, t0, slots, remaining));
                     for shard in 0..sec.shards {
@@ -726,10 +727,13 @@ impl Check {
                                 if stop.load(Ordering::Relaxed) {
                                     break;
                                 }
+                                // one case at a time for the first thousand (sections of few, slow cases
+                                // spread over all shards), then batches of 64 (lock traffic of cheap ones)
                                 let batch: Vec<C> = {
                                     let mut g = it.lock().unwrap();
-                                    let mut b = Vec::with_capacity(64);
-                                    for _ in 0..64 {
+                                    let n = if handed.fetch_add(1, Ordering::Relaxed) < 1024 { 1 } else { 64 };
+                                    let mut b = Vec::with_capacity(n);
+                                    for _ in 0..n {
                                         match g.next() {
                                             Some(c) => b.push(c),
                                             None => break,
@@ -741,6 +745,9 @@ impl Check {
                                     break;
                                 }
                                 for c in &batch {
+                                    if stop.load(Ordering::Relaxed) {
+                                        break;
+                                    }
                                     slots[shard].enter(t0, c);
                                     let (v, known) = this.judge(secr, c);
                                     slots[shard].leave();
